@@ -445,6 +445,14 @@ def seq_view(ctx, fn: FuncInfo, name: str):
     """How the list `name` is built in `fn`: from a comprehension assigned to it, or from `name = []` plus one loop that
     appends to it. Returns SeqView(iterable, loop target, appended element with loop-local temporaries substituted, selection
     conditions, node) or None."""
+    n_defs = 0
+    for n in walk_no_nested(fn.node):
+        val = n.value if isinstance(n, (ast.Assign, ast.AnnAssign)) else None
+        tgt = (n.targets[0] if isinstance(n, ast.Assign) and len(n.targets) == 1 else getattr(n, 'target', None)) if val is not None else None
+        if tgt is not None and unparse(tgt) == name:
+            n_defs += 1
+    if n_defs > 1:
+        return None          # bound in several places: not one construction
     for n in walk_no_nested(fn.node):
         val = n.value if isinstance(n, (ast.Assign, ast.AnnAssign)) else None
         tgt = (n.targets[0] if isinstance(n, ast.Assign) and len(n.targets) == 1 else getattr(n, 'target', None)) if val is not None else None
